@@ -79,6 +79,46 @@ def gen_test(recipe, cex, oid):
             args = ", ".join("&" + S(a) for a in recipe["call_args"])
             body += f"let got: BlsScalar = key.compute_quotient_i(0, {args});\n"
             body += f"let want = sc({limbs(want)}); let predicted = sc({limbs(code)});\n"
+    elif kind in ("ruffini", "evaluate", "poly_binop"):
+        # concrete polynomials from the counterexample (entries the path decided zero are 0; symbols that do not occur in the
+        # difference keep a fixed default); the expectation is computed natively from the DEFINITION, not from the checker
+        import re as _re
+        zero = {}
+        for c, t in cex.get("path", []):
+            m = _re.fullmatch(r"eq\((\w+), int:0\)", c)
+            if m:
+                zero[m.group(1)] = t
+        def vec(prefix, k):
+            out = []
+            for i in range(k):
+                n = f"{prefix}{i}"
+                v = 0 if zero.get(n) else (env.get(n, 0) or (3 + i))
+                out.append(f"sc({limbs(v)})")
+            return "vec![" + ", ".join(out) + "]"
+        body += "let ev = |c: &Vec<BlsScalar>, x: BlsScalar| -> BlsScalar { let mut acc = BlsScalar::zero(); for k in c.iter().rev() { acc = acc * x + *k; } acc };\n"
+        if kind == "ruffini":
+            body += f"let p: Vec<BlsScalar> = {vec('p', recipe['k'])}; let z = {S('z')};\n"
+            body += "let q = Polynomial { coeffs: p.clone() }.ruffini(z);\nlet qc: Vec<BlsScalar> = q.iter().copied().collect();\n"
+            body += "for t in [5u64, 11, 1234567] { let x = BlsScalar::from(t);\n"
+            body += '  assert!(ev(&qc, x) * (x - z) + ev(&p, z) == ev(&p, x), "REPLAY-VIOLATION-REPRODUCED: ruffini(p, z) is not the quotient of p by (X - z): q(x)(x - z) + p(z) != p(x)"); }\n'
+        elif kind == "evaluate":
+            body += f"let p: Vec<BlsScalar> = {vec('p', recipe['k'])}; let v = {S('v')};\n"
+            body += "let got = Polynomial { coeffs: p.clone() }.evaluate(&v);\n"
+            body += 'assert!(got == ev(&p, v), "REPLAY-VIOLATION-REPRODUCED: Polynomial::evaluate differs from Horner evaluation of its coefficients");\n'
+        else:
+            la, lb, op = recipe["la"], recipe["lb"], recipe["op"]
+            body += f"let a: Vec<BlsScalar> = {vec('a', la)}; let b: Vec<BlsScalar> = {vec('b', lb)}; let f = {S('f')};\n"
+            body += "let pa = Polynomial { coeffs: a.clone() }; let pb = Polynomial { coeffs: b.clone() };\n"
+            call = {"add": "let r = &pa + &pb;", "sub": "let r = &pa - &pb;", "add_assign": "let mut r = pa.clone(); r += &pb;",
+                    "sub_assign": "let mut r = pa.clone(); r -= &pb;", "add_assign_scaled": "let mut r = pa.clone(); r += (f, &pb);"}[op]
+            sign = {"add": "ev(&b, x)", "sub": "-ev(&b, x)", "add_assign": "ev(&b, x)", "sub_assign": "-ev(&b, x)", "add_assign_scaled": "f * ev(&b, x)"}[op]
+            body += call + "\nlet rc: Vec<BlsScalar> = r.iter().copied().collect();\n"
+            body += "for t in [5u64, 11, 1234567] { let x = BlsScalar::from(t);\n"
+            body += f'  assert!(ev(&rc, x) == ev(&a, x) + {sign}, "REPLAY-VIOLATION-REPRODUCED: the polynomial operation does not agree with coefficient-wise arithmetic"); }}\n'
+            body += 'assert!(rc.last().map_or(true, |c| *c != BlsScalar::zero()), "REPLAY-VIOLATION-REPRODUCED: the result is not normalised (leading zero coefficient)");\n'
+        name = re.sub(r"\W", "_", oid)
+        # the test needs the private field `coeffs`: it is placed in a child module of src/fft/polynomial.rs
+        return f"//@in_file: src/fft/polynomial.rs\n#[test]\nfn replay_{name}() {{\n{body}}}\n"
     elif kind == "batch_inversion":
         # concrete vector from the failing path: entries the path decided zero are 0, the others take the counterexample's
         # value (or a fixed non-zero default); the expectation is computed natively: 1/x for x != 0, 0 for 0
@@ -111,6 +151,29 @@ def run_replay(tests_src, keep=False):
     """Build and run the generated tests on a scratch copy of /repo's working tree.  Returns (status, log) with status in
     {'reproduced', 'not_reproduced', 'inconclusive', 'error'}."""
     root = core.make_scratch("replay")
+    # tests marked `//@in_file: <path>` go into a child module appended to that file (access to private items of that module)
+    chunks = re.split(r"(?m)^(?=//@in_file: |#\[test\])", tests_src)
+    general, local = [], {}
+    cur = None
+    for ch in chunks:
+        m = re.match(r"//@in_file: (\S+)\n", ch)
+        if m:
+            cur = m.group(1)            # applies to the next test
+            rest = ch[m.end():]
+            if rest.strip():
+                local.setdefault(cur, []).append(rest)
+                cur = None
+        elif ch.strip():
+            if cur:
+                local.setdefault(cur, []).append(ch)
+                cur = None
+            else:
+                general.append(ch)
+    for rel, parts in local.items():
+        with open(os.path.join(root, rel), "a") as f:
+            f.write("\n#[cfg(test)]\nmod verif_replay_local {\n#![allow(unused_imports, unused_variables, non_snake_case, dead_code)]\nuse super::*;\n"
+                    "use dusk_bls12_381::BlsScalar;\nfn sc(l: [u64; 4]) -> BlsScalar { BlsScalar::from_raw(l) }\n" + "\n".join(parts) + "\n}\n")
+    tests_src = "\n".join(general)
     with open(os.path.join(root, "src", "verif_replay.rs"), "w") as f:
         f.write(PRELUDE + "\n" + tests_src)
     with open(os.path.join(root, "src", "lib.rs"), "a") as f:
@@ -118,7 +181,7 @@ def run_replay(tests_src, keep=False):
     env = core.offline_env()
     env["CARGO_TARGET_DIR"] = REPLAY_TARGET
     t = time.time()
-    r = subprocess.run(["cargo", "test", "--offline", "--lib", "verif_replay", "--", "--test-threads", "4"], cwd=root, env=env,
+    r = subprocess.run(["cargo", "test", "--offline", "--lib", "replay_", "--", "--test-threads", "4"], cwd=root, env=env,
                        capture_output=True, text=True, timeout=1800)
     log = (r.stdout[-6000:] + "\n" + r.stderr[-3000:])
     if "REPLAY-VIOLATION-REPRODUCED" in log:
